@@ -132,12 +132,20 @@ def run_read(cases, wd, tag="read", timeout=900, isolated=False, go_env=None):
     return go, model, crashed + mcrashed
 
 
+FUEL_ARTEFACTS = []
+
+
 def diff_read(g, m, compare_slots=True):
     if g is None or m is None:
         return "missing output (impl %s, model %s)" % (g is not None, m is not None)
     if len(g["ops"]) != len(m["ops"]):
         return "number of operations: impl %d model %d (impl panic %s, model panic %s)" % (len(g["ops"]), len(m["ops"]), g["panic"], m["panic"])
     for i, (a, b) in enumerate(zip(g["ops"], m["ops"])):
+        if (b["panic"] or "").startswith("outoffuel") and not a["panic"]:
+            # the model's fuel (file size + 1 steps) ran out although the implementation finished: a limit of the model
+            # (ReaderTotal.v characterises it exactly: expanding decoders, many chunk indexes on one chunk), never a finding
+            FUEL_ARTEFACTS.append(i)
+            continue
         if a["panic"] or b["panic"]:
             if bool(a["panic"]) != bool(b["panic"]):
                 return "op %d: impl crash %s, model crash %s" % (i, a["panic"], b["panic"])
